@@ -932,6 +932,17 @@ func (self *AofChannel) Run() {
 		self.aof.waitLockAofChannel(self)
 		if self.closed {
 			self.queueGlock.Lock()
+			if self.queueCount > 0 {
+				// pushed after the last pull: still written before the channel ends
+				select {
+				case <-self.queueWaiter:
+				default:
+				}
+				self.queuePulled = false
+				self.queueGlock.Unlock()
+				self.aof.handeLockAofChannel(self)
+				continue
+			}
 			self.queuePulled = false
 			if self.lockDbGlockAcquired {
 				self.lockDbGlock.LowUnSetPriority()
@@ -941,6 +952,9 @@ func (self *AofChannel) Run() {
 			self.aof.syncFileAofChannel(self)
 			_ = self.serverProtocol.Close()
 			self.aof.RemoveAofChannel(self)
+			// release a WaitFlushAofChannel that still counted this channel
+			self.aof.handeLockAofChannel(self)
+			self.aof.waitLockAofChannel(self)
 			close(self.closedWaiter)
 			return
 		}
